@@ -656,12 +656,14 @@ pub fn oracle_case(names: &Names, c: &Case, out: &mut OracleOut) {
         let mut loaded: Vec<usize> = vec![];
         for &k in order {
             let f = &c.files[k];
-            let before = observe_exec(&ex);
             for (p, _) in ex.models[0].identifiable_elements() {
                 probes.insert(p);
             }
             ex.probes = probes.iter().cloned().collect();
-            let before = if ex.probes.is_empty() { before } else { observe_exec(&ex) };
+            // the observation serializes every file, which rewrites the root's xsi:schemaLocation: observe once to
+            // reach the fixed point of that side effect, then take the reference observation
+            let _ = observe_exec(&ex);
+            let before = observe_exec(&ex);
             let r = ex.apply(&Op::Load(0, f.text.clone(), f.name.as_bytes().to_vec(), f.strict));
             if r.starts_with("R OK") {
                 out.loads_ok += 1;
@@ -683,6 +685,13 @@ pub fn oracle_case(names: &Names, c: &Case, out: &mut OracleOut) {
             }
         }
         if !expect_merge {
+            // conflicting files must be rejected (whichever of them comes second), valid ones accepted
+            if c.kind.starts_with("conflict-") && c.kind != "conflict-control" && all_ok {
+                out.fails.push(format!("FAIL {} not-rejected order={:?} every file of a conflicting set ({}) was accepted", c.id, order, c.kind));
+            }
+            if c.kind == "conflict-control" && !all_ok {
+                out.fails.push(format!("FAIL {} merge-rejected order={:?} a valid file was rejected", c.id, order));
+            }
             continue;
         }
         if !all_ok {
@@ -893,7 +902,7 @@ fn conflict_case(id: usize, rng: &mut SplitMix64, stats: &mut BTreeMap<String, u
     let mut master = gen_master(rng, 6);
     assign_all(&mut master, 1);
     let base = file_text(&master, 0x20000);
-    let kind = rng.below(6);
+    let kind = rng.below(7);
     let hdr = |body: &str| -> String {
         format!("<?xml version=\"1.0\" encoding=\"utf-8\"?>\n<AUTOSAR xsi:schemaLocation=\"http://autosar.org/schema/r4.0 AUTOSAR_00050.xsd\" xmlns=\"http://autosar.org/schema/r4.0\" xmlns:xsi=\"http://www.w3.org/2001/XMLSchema-instance\">\n{}</AUTOSAR>\n", body)
     };
@@ -938,6 +947,15 @@ fn conflict_case(id: usize, rng: &mut SplitMix64, stats: &mut BTreeMap<String, u
             )))
         }
         4 => ("dupname", base.clone()),
+        5 => {
+            // the same path twice inside ONE file: two packages with the same name, or a package and an element
+            let body = match rng.below(3) {
+                0 => "<AR-PACKAGES><AR-PACKAGE><SHORT-NAME>zz_d</SHORT-NAME></AR-PACKAGE><AR-PACKAGE><SHORT-NAME>zz_d</SHORT-NAME><ELEMENTS><UNIT><SHORT-NAME>u</SHORT-NAME></UNIT></ELEMENTS></AR-PACKAGE></AR-PACKAGES>".to_string(),
+                1 => "<AR-PACKAGES><AR-PACKAGE><SHORT-NAME>zz_d</SHORT-NAME><ELEMENTS><UNIT><SHORT-NAME>u</SHORT-NAME></UNIT><UNIT><SHORT-NAME>v</SHORT-NAME></UNIT><UNIT><SHORT-NAME>u</SHORT-NAME></UNIT></ELEMENTS></AR-PACKAGE></AR-PACKAGES>".to_string(),
+                _ => "<AR-PACKAGES><AR-PACKAGE><SHORT-NAME>zz_d</SHORT-NAME><ELEMENTS><UNIT><SHORT-NAME>u</SHORT-NAME></UNIT></ELEMENTS><AR-PACKAGES><AR-PACKAGE><SHORT-NAME>u</SHORT-NAME></AR-PACKAGE></AR-PACKAGES></AR-PACKAGE></AR-PACKAGES>".to_string(),
+            };
+            ("dupfile", hdr(&body))
+        }
         _ => {
             // a valid second file (control): nothing must be rejected, nothing is checked for C11
             ("control", hdr("<AR-PACKAGES><AR-PACKAGE><SHORT-NAME>zz_only</SHORT-NAME></AR-PACKAGE></AR-PACKAGES>"))
@@ -949,6 +967,10 @@ fn conflict_case(id: usize, rng: &mut SplitMix64, stats: &mut BTreeMap<String, u
     let first_text = match kind {
         2 => hdr(&format!(
             "<AR-PACKAGES><AR-PACKAGE><SHORT-NAME>{}</SHORT-NAME><ELEMENTS><SENDER-RECEIVER-INTERFACE><SHORT-NAME>zz_if</SHORT-NAME><DATA-ELEMENTS><VARIABLE-DATA-PROTOTYPE><SHORT-NAME>one</SHORT-NAME></VARIABLE-DATA-PROTOTYPE></DATA-ELEMENTS></SENDER-RECEIVER-INTERFACE><UNIT><SHORT-NAME>aa_u</SHORT-NAME></UNIT></ELEMENTS></AR-PACKAGE></AR-PACKAGES>",
+            pname
+        )),
+        1 if first_el.is_none() => hdr(&format!(
+            "<AR-PACKAGES><AR-PACKAGE><SHORT-NAME>{}</SHORT-NAME><ELEMENTS><COMPU-METHOD><SHORT-NAME>a</SHORT-NAME></COMPU-METHOD></ELEMENTS></AR-PACKAGE></AR-PACKAGES>",
             pname
         )),
         3 => hdr(&format!(
@@ -1126,6 +1148,8 @@ fn c11_main(args: &[String]) {
             let mut errs: Vec<String> = vec![];
             for (j, op) in ops.iter().enumerate() {
                 if let Op::Load(..) = op {
+                    // (observe twice: serializing the files rewrites the root's xsi:schemaLocation, see oracle_case)
+                    let _ = observe_exec(&ex);
                     let before = observe_exec(&ex);
                     let r = ex.apply(op);
                     if r.starts_with("R ERR") {
